@@ -212,6 +212,18 @@ static void FinishCmd(int idx) {
   Record(Event::kFinish, idx, 0);
 }
 
+/// A command that was still running when ninja died runs to completion on its own.
+void CompleteOrphan(vfs::Disk* d, RunResult* res, const RunConfig& cfg, int idx) {
+  Cur saved = g_cur;
+  vfs::Disk* saved_disk = vfs::disk;
+  g_cur.res = res;
+  g_cur.cfg = &cfg;
+  vfs::disk = d;
+  FinishCmd(idx);
+  vfs::disk = saved_disk;
+  g_cur = saved;
+}
+
 }  // namespace nx
 
 using namespace nx;
